@@ -1,0 +1,152 @@
+//go:build verif
+
+// Verification hook H6 (model-based conformance checks C10, C11, C12).
+//
+// The upstream tracer calls are commented out in this fork, so the interpreter
+// has no observation point of its own. In `verif` builds EVMInterpreter.Run
+// reports frame entry/exit and the three moments of every step (fetched,
+// charged, executed) to an installable observer. Without the tag the calls are
+// empty functions (verif_nohook.go). The hook never changes interpreter state.
+package vm
+
+import (
+	"math/big"
+
+	"com.tuntun.rangers/node/src/common"
+	"com.tuntun.rangers/node/src/middleware/types"
+	"github.com/holiman/uint256"
+)
+
+// VerifFrame is what the observer sees of one interpreter frame.
+type VerifFrame struct {
+	Depth     int  // evm.depth after the increment done by Run (outermost frame = 1)
+	StaticArg bool // the readOnly argument of Run
+	ReadOnly  bool // the interpreter's sticky flag after Run's prologue
+	Address   common.Address
+	Caller    common.Address
+	CodeAddr  common.Address
+	Value     *big.Int
+	Gas       uint64 // contract.Gas (at entry / at exit)
+	Code      []byte
+	Input     []byte
+}
+
+// VerifStep is what the observer sees of one interpreter step. Stack and Mem
+// are the live slices of the interpreter: the observer must copy what it keeps.
+type VerifStep struct {
+	Depth      int
+	Pc         uint64 // value of the pc variable at the moment of the report
+	Op         OpCode
+	Gas        uint64 // contract.Gas at the moment of the report
+	Cost       uint64 // constant + dynamic gas of the step (StepCharged / StepDone)
+	Stack      []uint256.Int
+	Mem        []byte
+	ReturnData []byte
+	ReadOnly   bool
+	Address    common.Address
+}
+
+// VerifObserver receives the interpreter's reports.
+type VerifObserver interface {
+	FrameEnter(f *VerifFrame)
+	FrameExit(f *VerifFrame, ret []byte, logs []*types.Log, err error)
+	// StepFetched: the opcode was fetched, nothing validated or charged yet.
+	StepFetched(s *VerifStep)
+	// StepCharged: stack validated, gas charged, memory resized; execute is next.
+	StepCharged(s *VerifStep)
+	// StepDone: operation.execute returned (Pc is the pc variable as execute left it).
+	StepDone(s *VerifStep, res []byte, err error)
+}
+
+var verifObserver VerifObserver
+
+// VerifSetObserver installs (or, with nil, removes) the observer. Not thread safe:
+// the drivers run one EVM at a time.
+func VerifSetObserver(o VerifObserver) { verifObserver = o }
+
+func verifFrameOf(in *EVMInterpreter, contract *Contract, input []byte, readOnly bool) *VerifFrame {
+	f := &VerifFrame{Depth: in.evm.depth, StaticArg: readOnly, ReadOnly: in.readOnly,
+		Address: contract.Address(), Caller: contract.Caller(), Value: contract.value,
+		Gas: contract.Gas, Code: contract.Code, Input: input}
+	if contract.CodeAddr != nil {
+		f.CodeAddr = *contract.CodeAddr
+	}
+	return f
+}
+
+func verifFrameEnter(in *EVMInterpreter, contract *Contract, input []byte, readOnly bool) {
+	if verifObserver != nil {
+		verifObserver.FrameEnter(verifFrameOf(in, contract, input, readOnly))
+	}
+}
+
+func verifFrameExit(in *EVMInterpreter, contract *Contract, input []byte, readOnly bool, ret *[]byte, logs *[]*types.Log, err *error) {
+	if verifObserver != nil {
+		verifObserver.FrameExit(verifFrameOf(in, contract, input, readOnly), *ret, *logs, *err)
+	}
+}
+
+func verifStepOf(in *EVMInterpreter, pc uint64, op OpCode, cost uint64, contract *Contract, stack *Stack, mem *Memory) *VerifStep {
+	return &VerifStep{Depth: in.evm.depth, Pc: pc, Op: op, Gas: contract.Gas, Cost: cost,
+		Stack: stack.data, Mem: mem.store, ReturnData: in.returnData, ReadOnly: in.readOnly,
+		Address: contract.Address()}
+}
+
+func verifStepFetched(in *EVMInterpreter, pc uint64, op OpCode, contract *Contract, stack *Stack, mem *Memory) {
+	if verifObserver != nil {
+		verifObserver.StepFetched(verifStepOf(in, pc, op, 0, contract, stack, mem))
+	}
+}
+
+func verifStepCharged(in *EVMInterpreter, pc uint64, op OpCode, cost uint64, contract *Contract, stack *Stack, mem *Memory) {
+	if verifObserver != nil {
+		verifObserver.StepCharged(verifStepOf(in, pc, op, cost, contract, stack, mem))
+	}
+}
+
+func verifStepDone(in *EVMInterpreter, pc uint64, op OpCode, cost uint64, contract *Contract, stack *Stack, mem *Memory, res []byte, err error) {
+	if verifObserver != nil {
+		verifObserver.StepDone(verifStepOf(in, pc, op, cost, contract, stack, mem), res, err)
+	}
+}
+
+// VerifOpInfo is one entry of the jump table the interpreter would use at a height.
+type VerifOpInfo struct {
+	Op          int
+	Name        string
+	ConstantGas uint64
+	MinStack    int
+	MaxStack    int
+	HasDynamic  bool
+	HasMemSize  bool
+	Halts       bool
+	Jumps       bool
+	Writes      bool
+	Reverts     bool
+	Returns     bool
+}
+
+// VerifJumpTable returns the defined entries of the jump table that
+// NewEVMInterpreter builds for a block of the given height under the current
+// common.LocalChainConfig.
+func VerifJumpTable(height uint64) []VerifOpInfo {
+	evm := &EVM{Context: Context{BlockNumber: new(big.Int).SetUint64(height)}}
+	in := NewEVMInterpreter(evm)
+	out := make([]VerifOpInfo, 0, 256)
+	for i, o := range in.jumpTable {
+		if o == nil {
+			continue
+		}
+		out = append(out, VerifOpInfo{Op: i, Name: OpCode(i).String(), ConstantGas: o.constantGas,
+			MinStack: o.minStack, MaxStack: o.maxStack, HasDynamic: o.dynamicGas != nil,
+			HasMemSize: o.memorySize != nil, Halts: o.halts, Jumps: o.jumps, Writes: o.writes,
+			Reverts: o.reverts, Returns: o.returns})
+	}
+	return out
+}
+
+// VerifStackLimit is the operand stack limit the stack tables are built with.
+func VerifStackLimit() int { return int(StackLimit) }
+
+// VerifCallDepthLimit is the call depth limit checked by Call/Create.
+func VerifCallDepthLimit() int { return int(CallCreateDepth) }
